@@ -39,6 +39,7 @@ fn direct_sweep(pool: &[String], pool3: &[String], max: usize, threads: usize, s
     for (gg, ss) in res {
         g.merge(gg);
         s.sets += ss.sets;
+        s.unspecified += ss.unspecified;
         s.accepted += ss.accepted;
         s.rejected += ss.rejected;
         s.trie_entries += ss.trie_entries;
@@ -172,7 +173,7 @@ pub fn main_c01(registry: Vec<Entry>) {
         "bounds",
         json!({"direct": {"pool": "P3 (paths of depth 1..3 over A, Bb, TeST, each node optional or not, command and query: 516) + special pool",
                           "special_pool": SPECIAL, "set_sizes": "all ordered pairs; ordered triples over P1 (quick) / P2 (thorough)",
-                          "sets": ds.sets, "accepted": ds.accepted, "rejected": ds.rejected, "trie_entries_compared": ds.trie_entries},
+                          "sets": ds.sets, "sets_without_expectation_an_unreachable_declaration_written_twice": ds.unspecified, "accepted": ds.accepted, "rejected": ds.rejected, "trie_entries_compared": ds.trie_entries},
                "compiled": {"interfaces": cs.interfaces, "trie_entries_compared": cs.trie_entries, "headers_executed": cs.headers,
                             "headers_selecting_a_handler": cs.selected, "headers_undefined": cs.undefined,
                             "near_miss_pool": "per declared mnemonic: short, long (upper/lower/mixed), every proper prefix of long, short minus one letter, long/short plus one letter, foreign ZZ",
@@ -238,7 +239,7 @@ pub fn main_c14(registry: Vec<Entry>) {
     out.cov(
         "bounds",
         json!({"direct": {"pool": "P3 (516 declarations) + special pool", "special_pool": SPECIAL,
-                          "sets": ds.sets, "accepted": ds.accepted, "rejected": ds.rejected, "triples_over": if thorough { "P2" } else { "P1" }},
+                          "sets": ds.sets, "sets_without_expectation_an_unreachable_declaration_written_twice": ds.unspecified, "accepted": ds.accepted, "rejected": ds.rejected, "triples_over": if thorough { "P2" } else { "P1" }},
                "compiled": {"accepted_sets_built": accepted, "colliding_sets": n_rej, "rejected_with_expected_error": n_match}}),
     );
     out.cov("samples", json!([{"decls": ["A", "[A]"], "expected": "CommandExists"}, {"decls": ["[A]:Bb?", "Bb?"], "expected": "QueryExists"},
